@@ -28,7 +28,7 @@ ORACLE = 'C02'
 def gen(rng, tier, idx):
     wp = world.draw_world_params(rng)
     wp['n_query'] = rng.choice([1, 2, 3, 5, 8, 12])
-    wp['n_genes'] = rng.choice([6, 8, 12, 16, 24])
+    wp['n_genes'] = rng.choice([6, 8, 12, 16, 24]) if rng.random() > 0.03 else 300
     W = world.make_world(wp)
     mcfg = common.draw_mapping_cfg(rng, W)
     mcfg['min_markers'] = max(1, mcfg['min_markers'])
